@@ -126,7 +126,9 @@ def run_case(case, cfg, out):
                                tuple(ifaces[b] for b in bs) or (Interface,),
                                attrs, __module__='verif.c15')
         for t in nd['tags']:
-            iface.setTaggedValue(t, ('tag', t, i))
+            # some values are None: a tag whose value is None is defined
+            iface.setTaggedValue(t, None if (i + len(t)) % 4 == 0
+                                 else ('tag', t, i))
         if invs:
             iface.setTaggedValue('invariants', [f for f, _, _ in invs])
         ifaces.append(iface)
@@ -230,13 +232,31 @@ def run_case(case, cfg, out):
                          'expected %r (iro %r)' % (
                              stage, i, t, I.queryTaggedValue(t), want, iro))
                 return False
+            # the default is returned only if nobody defines the tag, even
+            # if the nearest definition is the very object passed as default
+            # (seed C15f)
+            sentinel = object()
+            for dflt in (sentinel, want):
+                got = I.queryTaggedValue(t, dflt)
+                exp = want if definers else dflt
+                if got is not exp:
+                    out.fail('queryTaggedValue-default', '%s: iface %d '
+                             'queryTaggedValue(%r, %s) -> %r, expected %r '
+                             '(iro %r)' % (
+                                 stage, i, t, 'the nearest value itself'
+                                 if dflt is want else 'a sentinel', got, exp,
+                                 iro))
+                    return False
             try:
                 got = I.getTaggedValue(t)
+                raised = False
             except KeyError:
-                got = None
-            if got is not want:
-                out.fail('getTaggedValue', '%s: iface %d tag %r' % (
-                    stage, i, t))
+                got, raised = None, True
+            if got is not want or raised != (not definers):
+                out.fail('getTaggedValue', '%s: iface %d tag %r -> %r%s, '
+                         'expected %r' % (stage, i, t, got,
+                                          ' (KeyError)' if raised else '',
+                                          want))
                 return False
         if set(I.getTaggedValueTags()) != alltags:
             out.fail('getTaggedValueTags', '%s: iface %d %r != %r' % (
